@@ -16,4 +16,4 @@ Extraction "../ocaml/model.ml"
   decode_mappings chain lookup find_entry vlq_encode
   collect order_issues
   wf_all has_optchain ns_count
-  sem_tie plus_name.
+  sem_tie plus_name csi_get allows_literal_callers.
